@@ -1,4 +1,5 @@
 """C08 -- non-linear and total least-squares fits obey the implicit-function rule (DESIGN §3 C08)."""
+import os
 import warnings
 
 from harness import common, obsutil
@@ -57,6 +58,8 @@ def run(ctx):
     ctx.assumptions += ["tolerances: residual of the differentiated system <= 2^-18 of the sum of its absolute terms; stationarity g_i^2 <= tol^2 H_ii (1 + chi^2 + H_ii p_i^2) with tol = 2^-18 (2^-10 for ODR)"]
     ctx.copy_props()
 
+    import itertools
+    uniq = itertools.count()
     cases = []
     ncase = 30 if quick else 400
     for i in range(ncase):
@@ -74,11 +77,11 @@ def run(ctx):
         cv = pe.cov_Obs(1.0, 0.0004, "cvN") if rng.random() < 0.2 else None
 
         def noise(scale):
-            lay = base if shared else obsutil.gen_layout(rng, nmin=24, nmax=40, max_ens=1, ens_names=["N%d" % rng.randint(0, 99)])
+            lay = base if shared else obsutil.gen_layout(rng, nmin=24, nmax=40, max_ens=1, ens_names=["N%dx%d" % (i, next(uniq))])
             if shared and rng.random() < 0.3:
                 lay = obsutil.derive_layout(rng, base, rng.choice(["subset_prefix", "superset", "subset_stride"]))
             o = obsutil.make_obs(pe, rng, lay, "int")
-            o = (o - o.value) * (scale / 3.0)
+            o = (o - o.value) * (scale / 3.0) + scale * 0.15 * rng.uniform(-1, 1)      # non-zero mean: the data do not sit on the curve
             return o
         try:
             ytrue = [float(func(np.array(ptrue), np.array(x) if ncomp > 1 else x[0])) for x in xs]
@@ -150,6 +153,10 @@ def run(ctx):
         term = "(mkFitC %s %d%%nat %d%%nat [%s] [%s] [%s] [%s] (1 # 2 ^ 18) %s %s)" % (
             F, nu, npar, "; ".join(qlit(v) for v in uvals), "; ".join(qlit(v) for v in dvals),
             "; ".join(obsutil.obs_term(p) for p in res.fit_parameters), "; ".join(obsutil.obs_term(o) for o in dobs), qlit(tol), qlit(chisq))
+        if os.environ.get("C08_DUMP"):
+            import pickle
+            with open(os.path.join(os.environ["C08_DUMP"], "case_%03d.pkl" % len(cases)), "wb") as fh:
+                pickle.dump({"family": name, "kind": kind, "xs": xs, "y": y_all, "kw": {k: v for k, v in kw.items()}, "params": res.fit_parameters, "dobs": dobs}, fh)
         descr = dict(opts, family=name, npar=npar, npoints=npts, shared_ensemble=shared, fit_values=uvals[:npar], chisquare=chisq)
         cases.append({"term": term, "descr": descr, "key": "implicit:%s:%s" % (name, ":".join("%s" % v for v in opts.values())), "replay": descr})
         for k, v in opts.items():
